@@ -449,6 +449,11 @@ pub fn part_b(depth: usize, deadline: Instant) -> PartB {
     // seeds
     let seed1: Vec<DOp> = vec![DOp::Set(10, 1), DOp::Set(20, 1), DOp::Next, DOp::Set(10, 2), DOp::Skip, DOp::Next, DOp::Commit, DOp::Set(30, 2), DOp::Next];
     frontier.push(seed1);
+    // a key that leaves a committed value and returns to it before the next commit
+    let seed2: Vec<DOp> = vec![DOp::Set(10, 1), DOp::Next, DOp::Commit, DOp::Set(10, 2), DOp::Next, DOp::Set(10, 1), DOp::Next];
+    frontier.push(seed2);
+    let seed3: Vec<DOp> = vec![DOp::Set(20, 1), DOp::Next, DOp::Commit, DOp::Unset(20), DOp::Next, DOp::Set(20, 1), DOp::Next];
+    frontier.push(seed3);
     for d in 0..=depth {
         let mut next: Vec<Vec<DOp>> = Vec::new();
         for path in &frontier {
